@@ -81,6 +81,16 @@ Proof.
         exists (RMid :: RLen n :: RBody id1 cs1 :: RSum false :: a), n', b. reflexivity.
 Qed.
 
+Lemma same_files_same_queries : forall im im' bucket, i_files im = i_files im' -> bucket_rows im bucket = bucket_rows im' bucket.
+Proof. intros im im' bucket H. unfold bucket_rows. rewrite H. reflexivity. Qed.
+
+Corollary scan_only_intact_from_empty : forall recs size m',
+  scan recs size [] [] = ScanOk m' ->
+  forall id cs, In (id, Some cs) m' -> intact_in recs id cs.
+Proof.
+  intros recs size m' H id cs Hin. destruct (scan_only_intact recs size [] [] m' H id cs Hin) as [[]|Hi]. exact Hi.
+Qed.
+
 (* ------------------------------------------------------------------ the end state of a run *)
 
 Section WithClen.
